@@ -15,9 +15,10 @@ if go test -vet=off -count=1 ./... >/tmp/wt/_t1_$id.log 2>&1; then echo "existin
 demopkg=$(grep -m1 '^package ' /tmp/wt/_keep_$id/demo_test.go | awk '{print $2}')
 case $demopkg in diskbuffer*) ddir=internal/diskbuffer;; *) ddir=.;; esac
 cp /tmp/wt/_keep_$id/demo_test.go $ddir/zz_seed_demo_test.go
-if go test -vet=off -count=1 ./$ddir/ >/tmp/wt/_t2_$id.log 2>&1; then echo "demo PASSES with change (bad)"; else echo "demo fails with change (good)"; fi
+tests=$(grep -o '^func Test[A-Za-z0-9_]*' /tmp/wt/_keep_$id/demo_test.go | sed 's/func //' | paste -sd'|')
+if go test -vet=off -count=1 -run "^($tests)\$" ./$ddir/ >/tmp/wt/_t2_$id.log 2>&1; then echo "demo PASSES with change (bad)"; else echo "demo fails with change (good)"; fi
 git checkout -q -- . 
-if go test -vet=off -count=1 ./$ddir/ >/tmp/wt/_t3_$id.log 2>&1; then echo "demo passes without change (good)"; else echo "demo FAILS without change (bad)"; tail -5 /tmp/wt/_t3_$id.log; fi
+if go test -vet=off -count=1 -run "^($tests)\$" ./$ddir/ >/tmp/wt/_t3_$id.log 2>&1; then echo "demo passes without change (good)"; else echo "demo FAILS without change (bad)"; tail -5 /tmp/wt/_t3_$id.log; fi
 rm -f $ddir/zz_seed_demo_test.go
 mkdir -p /verif/seeded/$name && cp /tmp/wt/_keep_$id/patch.diff /tmp/wt/_keep_$id/demo_test.go /tmp/wt/_keep_$id/notes.md /verif/seeded/$name/
 echo "copied to /verif/seeded/$name"
